@@ -30,6 +30,7 @@ TU1 == <<"ent", "User", "u1">>
 TU2 == <<"ent", "User", "u2">>
 TU3 == <<"ent", "User", "u3">>      \* referenced but never has a record
 TG == <<"ent", "Group", "g">>
+TG2 == <<"ent", "Group", "g2">>
 TD == <<"ent", "Doc", "d">>
 TView == ActUid("view")
 TEdit == ActUid("edit")
@@ -44,13 +45,13 @@ U1Of(opt, mgr, inner, tags, ing) ==
              \cup (IF opt THEN {<<"opt", TL(5)>>} ELSE {})
              \cup (IF mgr = "none" THEN {} ELSE {<<"mgr", IF mgr = "u2" THEN TU2 ELSE TU3>>})),
        IF tags THEN {<<TagK, TL(1)>>} ELSE {},
-       IF ing THEN {TG} ELSE {})
+       IF ing = "g" THEN {TG} ELSE IF ing = "g2" THEN {TG2} ELSE {})
 U2Of(opt) == ERec(FunOf({<<"n", <<"long", I64Max>>>>, <<"rec", <<"rec", <<>>>>>>} \cup (IF opt THEN {<<"opt", TL(5)>>} ELSE {})), {}, {})
 DOf(owner) == ERec([owner |-> owner, pub |-> <<"bool", TRUE>>], {}, {})
 NoData == ERec(<<>>, {}, {})
 
 StoreOf(u1, u2, d) ==
-  (TU1 :> u1) @@ (TU2 :> u2) @@ (TD :> d) @@ (TG :> NoData)
+  (TU1 :> u1) @@ (TU2 :> u2) @@ (TD :> d) @@ (TG :> NoData) @@ (TG2 :> NoData)
   @@ (TView :> ERec(<<>>, {}, {TAll})) @@ (TEdit :> ERec(<<>>, {}, {TAll})) @@ (TAll :> NoData)
 
 ActCtx == { <<TView, [flag |-> <<"bool", TRUE>>]>>, <<TView, [flag |-> <<"bool", FALSE>>]>>,
@@ -62,7 +63,7 @@ EnvOf(u1, u2, d, ac) == [req |-> [principal |-> TU1, action |-> ac[1], resource 
 \* not a zero-arity constant on purpose (TLC would evaluate it eagerly everywhere it is extended)
 Envs(dummy) ==
   {EnvOf(U1Of(opt, mgr, inner, tags, ing), U2Of(opt2), DOf(owner), ac)
-   : opt \in BOOLEAN, mgr \in {"none", "u2", "u3"}, inner \in BOOLEAN, tags \in BOOLEAN, ing \in BOOLEAN,
+   : opt \in BOOLEAN, mgr \in {"none", "u2", "u3"}, inner \in BOOLEAN, tags \in BOOLEAN, ing \in {"no", "g"},
      opt2 \in BOOLEAN, owner \in {TU1, TU2}, ac \in ActCtx}
 
 \* environments addressed by a parameter tuple
@@ -74,7 +75,7 @@ UidOfName(n) == IF n = "u1" THEN TU1 ELSE TU2
 EnvP(p) ==
   LET e == EnvOf(U1Of(p[1], p[2], p[3], p[4], p[5]), U2Of(p[6]), DOf(UidOfName(p[7])), ActCtxSeq[p[8]])
   IN [e EXCEPT !.req.principal = UidOfName(p[9])]
-ParamDoms == << BOOLEAN, {"none", "u2", "u3"}, BOOLEAN, BOOLEAN, BOOLEAN, BOOLEAN, {"u1", "u2"}, 1..5, {"u1", "u2"} >>
+ParamDoms == << BOOLEAN, {"none", "u2", "u3"}, BOOLEAN, BOOLEAN, {"no", "g", "g2"}, BOOLEAN, {"u1", "u2"}, 1..5, {"u1", "u2"} >>
 AllParams(dummy) == {<<a, b, cc, d, e, f, g, h, i>> : a \in ParamDoms[1], b \in ParamDoms[2], cc \in ParamDoms[3], d \in ParamDoms[4],
                        e \in ParamDoms[5], f \in ParamDoms[6], g \in ParamDoms[7], h \in ParamDoms[8], i \in ParamDoms[9]}
 \* parameter tuples that agree with `base` outside the positions in `free`; position 8 (action+context) keeps the action
